@@ -15,12 +15,12 @@ def natOfDigits (ds : List Nat) : Nat := natOfDigitsFrom 0 ds
 structure DigitTab.Ascii (tab : DigitTab) : Prop where
   isDigit : ∀ d, d < 10 → tab.isDigit (d + 48) = true
   value : ∀ d, d < 10 → tab.value (d + 48) = some d
-  minus : tab.isDigit 45 = false
+  low : ∀ c, c < 48 → tab.isDigit c = false
 
 theorem asciiDigits_ascii : DigitTab.Ascii asciiDigits where
   isDigit d h := by simp [asciiDigits]; omega
   value d h := by simp [asciiDigits]; omega
-  minus := by decide
+  low c h := by simp [asciiDigits]; omega
 
 /-- The separators are ordinary punctuation: not digits, not `-`, not `/`. -/
 structure SepCfg.Sane (c : SepCfg) : Prop where
@@ -118,7 +118,7 @@ theorem digitalValue_plain (p : Nat) (tab : DigitTab) (ht : tab.Ascii) (c : SepC
     simp only [Bool.false_eq_true, if_false, List.nil_append]
     have e0 : ({} : DVState) = ⟨⟨false, 0, 0⟩, Dec.ofNat 10, false, false, []⟩ := rfl
     rw [e0, he, dvLoop]
-    simp only [bind, Except.bind, pure, Except.pure, Bool.false_eq_true, if_false, List.reverse_cons,
+    simp only [dvFinish, bind, Except.bind, pure, Except.pure, Bool.false_eq_true, if_false, List.reverse_cons,
       List.reverse_nil, List.nil_append, List.foldl_cons, List.foldl_nil]
     rw [add_zero_left p _ hp (by simpa [natOfDigits] using hb), mul_one_right p _ _ hp (by simpa [natOfDigits] using hb)]
     rfl
@@ -131,7 +131,7 @@ theorem digitalValue_plain (p : Nat) (tab : DigitTab) (ht : tab.Ascii) (c : SepC
       simp [this]
     have e1 : (45 == dec) = false := by simp; omega
     have e2 : (45 == non) = false := by simp; omega
-    simp only [hsk, ht.minus, e1, e2, NBSP]
+    simp only [hsk, ht.low 45 (by decide), e1, e2, NBSP]
     simp only [Bool.false_eq_true, if_false, Bool.or_self, Bool.and_false, Bool.not_false, Bool.and_true,
       BEq.rfl, if_true, Nat.reduceBEq]
     obtain ⟨prev', he, _⟩ := dvLoop_digits p tab ht c.multiDec dec non hs len lead h3 hp [] ds hd 1 45 0 true []
@@ -139,11 +139,247 @@ theorem digitalValue_plain (p : Nat) (tab : DigitTab) (ht : tab.Ascii) (c : SepC
     simp only [List.append_nil] at he
     have e0 : ({ ({} : DVState) with negative := true }) = ⟨⟨false, 0, 0⟩, Dec.ofNat 10, false, true, []⟩ := rfl
     rw [e0, he, dvLoop]
-    simp only [bind, Except.bind, pure, Except.pure, Bool.false_eq_true, if_false, List.reverse_cons,
+    simp only [dvFinish, bind, Except.bind, pure, Except.pure, Bool.false_eq_true, if_false, List.reverse_cons,
       List.reverse_nil, List.nil_append, List.foldl_cons, List.foldl_nil, if_true]
     rw [add_zero_left p _ hp (by simpa [natOfDigits] using hb), mul_one_right p _ _ hp (by simpa [natOfDigits] using hb),
       mul_neg_one p _ hp (by simpa [natOfDigits] using hb)]
     rfl
+
+/-! ### general literals: integer part with inert characters, decimal separator, fraction digits -/
+
+/-- the digits among the characters of the integer part -/
+def charDigits (cs : Str) : List Nat := cs.filterMap fun c => if 48 ≤ c && c ≤ 57 then some (c - 48) else none
+
+/-- every character of the integer part, at its own position, is an ASCII digit or a mark that
+`__skip_non_decimal_separator` skips there -/
+def IntPart (multiDec : Bool) (non : Nat) (hs : Bool) (len lead : Nat) : Nat → Nat → Str → Prop
+  | _, _, [] => True
+  | i, prev, c :: r =>
+    ((∃ d, d < 10 ∧ c = d + 48) ∨ (c < 48 ∧ skipNonDecimal multiDec c (len - i) (i - lead) hs prev non = true)) ∧
+      IntPart multiDec non hs len lead (i + 1) c r
+
+theorem charDigits_digit (d : Nat) (r : Str) (h : d < 10) : charDigits ((d + 48) :: r) = d :: charDigits r := by
+  have hc : (48 ≤ d + 48 && d + 48 ≤ 57) = true := by simp; omega
+  unfold charDigits
+  rw [List.filterMap_cons, if_pos hc]
+  simp
+
+theorem charDigits_low (c : Nat) (r : Str) (h : c < 48) : charDigits (c :: r) = charDigits r := by
+  have hc : ¬ ((48 ≤ c && c ≤ 57) = true) := by simp; omega
+  unfold charDigits
+  rw [List.filterMap_cons, if_neg hc]
+
+theorem dvLoop_intpart (p : Nat) (tab : DigitTab) (ht : tab.Ascii) (multiDec : Bool) (dec non : Nat) (hs : Bool)
+    (len lead : Nat) (hnon : non < 48) (hp : 1 ≤ p) (rest : Str) (cs : Str) :
+    ∀ (i prev N : Nat) (ng : Bool) (stk : List Dec), IntPart multiDec non hs len lead i prev cs →
+      natOfDigitsFrom N (charDigits cs) < 10 ^ p →
+      ∃ prev', dvLoop p tab multiDec false dec non hs len lead (cs ++ rest) i prev
+          ⟨⟨false, N, 0⟩, Dec.ofNat 10, false, ng, stk⟩ =
+        dvLoop p tab multiDec false dec non hs len lead rest (i + cs.length) prev'
+          ⟨⟨false, natOfDigitsFrom N (charDigits cs), 0⟩, Dec.ofNat 10, false, ng, stk⟩ := by
+  induction cs with
+  | nil =>
+    intro i prev N ng stk _ _
+    exact ⟨prev, by simp [charDigits, natOfDigitsFrom]⟩
+  | cons c r ih =>
+    intro i prev N ng stk hI hb
+    obtain ⟨hc, hI'⟩ := hI
+    rcases hc with ⟨d, hd10, hcd⟩ | ⟨hlow, hskip⟩
+    · subst hcd
+      have hcd := charDigits_digit d r hd10
+      rw [hcd] at hb ⊢
+      have hstep : N * 10 + d < 10 ^ p := by
+        have := natOfDigitsFrom_ge (N * 10 + d) (charDigits r)
+        simp only [natOfDigitsFrom, List.foldl_cons] at hb this
+        omega
+      have hsk := skip_digit multiDec d (len - i) (i - lead) hs prev non hnon
+      have e32 : (d + 48 == 32) = false := by simp
+      have enb : (d + 48 == NBSP) = false := by simp [NBSP]; omega
+      have e47 : (d + 48 == 47) = false := by simp
+      simp only [List.cons_append]
+      rw [dvLoop]
+      simp only [hsk, e32, enb, e47, Bool.or_self, Bool.and_false, Bool.false_eq_true, if_false, ht.isDigit d hd10,
+        ht.value d hd10, Bool.not_false, Bool.true_and, if_true]
+      rw [intStep_exact p N d hp hstep]
+      obtain ⟨prev', he⟩ := ih (i + 1) (d + 48) (N * 10 + d) ng stk hI' (by simpa [natOfDigitsFrom] using hb)
+      refine ⟨prev', ?_⟩
+      rw [he]
+      simp only [natOfDigitsFrom, List.foldl_cons, List.length_cons]
+      congr 1
+      omega
+    · have hcd := charDigits_low c r hlow
+      rw [hcd] at hb ⊢
+      simp only [List.cons_append]
+      rw [dvLoop]
+      simp only [hskip, Bool.or_true, Bool.not_false, Bool.and_self, if_true]
+      obtain ⟨prev', he⟩ := ih (i + 1) c N ng stk hI' hb
+      refine ⟨prev', ?_⟩
+      rw [he]
+      simp only [List.length_cons]
+      congr 1
+      omega
+
+/-- the fraction digits: each step adds `d / 10^j` exactly and moves the scale one place down -/
+theorem dvLoop_frac (tab : DigitTab) (ht : tab.Ascii) (multiDec : Bool) (dec non : Nat) (hs : Bool)
+    (len lead : Nat) (hnon : non < 48) (fs : List Nat) (hd : ∀ d ∈ fs, d < 10) :
+    ∀ (i prev M j : Nat) (tmp : Dec) (ng : Bool) (stk : List Dec), Dec.Rep tmp M j →
+      natOfDigitsFrom M fs < 10 ^ 15 →
+      ∃ tmp', dvLoop 15 tab multiDec false dec non hs len lead (digitChars fs) i prev
+          ⟨tmp, Dec.scaleAt (j + 1), true, ng, stk⟩ = .ok ⟨tmp', Dec.scaleAt (j + fs.length + 1), true, ng, stk⟩ ∧
+        Dec.Rep tmp' (natOfDigitsFrom M fs) (j + fs.length) := by
+  induction fs with
+  | nil =>
+    intro i prev M j tmp ng stk hr _
+    exact ⟨tmp, by simp [digitChars, dvLoop], by simpa [natOfDigitsFrom] using hr⟩
+  | cons d r ih =>
+    intro i prev M j tmp ng stk hr hb
+    have hd10 : d < 10 := hd d (by simp)
+    have hstep : M * 10 + d < 10 ^ 15 := by
+      have := natOfDigitsFrom_ge (M * 10 + d) r
+      simp only [natOfDigitsFrom, List.foldl_cons] at hb this
+      omega
+    have hsk := skip_digit multiDec d (len - i) (i - lead) hs prev non hnon
+    have e32 : (d + 48 == 32) = false := by simp
+    have enb : (d + 48 == NBSP) = false := by simp [NBSP]; omega
+    have e47 : (d + 48 == 47) = false := by simp
+    simp only [digitChars, List.map_cons]
+    rw [dvLoop]
+    simp only [hsk, e32, enb, e47, Bool.or_self, Bool.and_false, Bool.false_eq_true, if_false, ht.isDigit d hd10,
+      ht.value d hd10, if_true]
+    have hadd := Dec.add_rep 15 tmp _ (M * 10) d (j + 1) (by decide) (Dec.rep_shift tmp M j hr)
+      (Dec.addend_rep (j + 1) d (by omega) hd10) hstep
+    rw [Dec.scale_step (j + 1) (by omega)]
+    obtain ⟨tmp', he, hr'⟩ := ih (fun x hx => hd x (by simp [hx])) (i + 1) (d + 48) (M * 10 + d) (j + 1) _ ng stk hadd
+      (by simpa [natOfDigitsFrom] using hb)
+    refine ⟨tmp', ?_, ?_⟩
+    · simp only [digitChars] at he
+      rw [he]
+      simp only [List.length_cons]
+      congr 3
+      omega
+    · simp only [natOfDigitsFrom, List.foldl_cons, List.length_cons]
+      have : j + (r.length + 1) = j + 1 + r.length := by omega
+      rw [this]
+      exact hr'
+
+/-- the tail of `_get_digital_value` keeps an exact value exact and restores the sign -/
+theorem dvFinish_rep (tmp : Dec) (ng : Bool) (M k : Nat) (hr : Dec.Rep tmp M k) (hM : M < 10 ^ 15) :
+    ∃ r, dvFinish 15 false ⟨tmp, sc, hd, ng, []⟩ 1 = .ok r ∧ r.neg = ng ∧ r.exp ≤ 0 ∧
+      r.coeff * 10 ^ k = M * 10 ^ (-r.exp).toNat := by
+  have h1 := Dec.add_rep 15 Dec.zero tmp 0 M k (by decide) (Dec.rep_zero k) hr (by omega)
+  rw [Nat.zero_add] at h1
+  have h2 := Dec.mul_one_rep 15 _ M k (by decide) h1 hM
+  simp only [dvFinish, bind, Except.bind, pure, Except.pure, Bool.false_eq_true, if_false, List.reverse_cons,
+    List.reverse_nil, List.nil_append, List.foldl_cons, List.foldl_nil]
+  generalize Dec.mul 15 (Dec.add 15 Dec.zero tmp) (Dec.ofNat 1) = cal at h2
+  obtain ⟨cn, cc, ce⟩ := cal
+  obtain ⟨hn, he, hv⟩ := h2
+  simp only at hn he hv
+  subst hn
+  cases ng
+  · exact ⟨_, rfl, rfl, he, hv⟩
+  · simp only [if_true]
+    have hm : Dec.mul 15 ⟨false, cc, ce⟩ (Dec.ofInt (-1)) = { Dec.fix 15 ⟨false, cc, ce⟩ with neg := true } := by
+      simp only [Dec.mul, Dec.ofInt]
+      simp
+      exact Dec.fix_neg 15 cc ce
+    rw [hm]
+    obtain ⟨_, fe, fv⟩ := Dec.fix_rep 15 cc ce M k (by decide) hM ⟨rfl, he, hv⟩
+    exact ⟨_, rfl, rfl, fe, fv⟩
+
+/-- **General literal.** `text = sign ++ ints ++ (dec' :: fraction digits)` where every character of `ints` is an
+ASCII digit or a mark that is skipped at its position under the separators in force `(dec', non', hs)`, with at
+most 15 digits in all: `_get_digital_value` returns a decimal that denotes exactly
+`± digits / 10^(number of fraction digits)`. -/
+theorem digitalValue_general (tab : DigitTab) (ht : tab.Ascii) (c : SepCfg) (neg hasFrac : Bool) (ints : Str)
+    (fs : List Nat) (dec' non' : Nat) (hs : Bool)
+    (hes : effectiveSeps c ((if neg then [45] else []) ++ ints ++ (if hasFrac then dec' :: digitChars fs else [])) =
+      (dec', non', hs))
+    (hfr : ((if neg then [45] else []) ++ ints ++ (if hasFrac then dec' :: digitChars fs else [])).contains 47 = false)
+    (hint : IntPart c.multiDec non' hs
+      ((if neg then [45] else []) ++ ints ++ (if hasFrac then dec' :: digitChars fs else [])).length
+      (leadLen ((if neg then [45] else []) ++ ints ++ (if hasFrac then dec' :: digitChars fs else [])))
+      (if neg then 1 else 0) (if neg then 45 else 0) ints)
+    (hdec : dec' < 48 ∧ dec' ≠ 45 ∧ dec' ≠ 32 ∧ dec' ≠ non') (hnon : non' < 48 ∧ non' ≠ 45)
+    (hfs : ∀ d ∈ fs, d < 10) (hnf : hasFrac = false → fs = [])
+    (hb : natOfDigitsFrom (natOfDigits (charDigits ints)) fs < 10 ^ 15) :
+    ∃ r, digitalValue 15 tab c ((if neg then [45] else []) ++ ints ++
+        (if hasFrac then dec' :: digitChars fs else [])) 1 = .ok r ∧
+      r.neg = neg ∧ r.exp ≤ 0 ∧
+      r.coeff * 10 ^ fs.length = natOfDigitsFrom (natOfDigits (charDigits ints)) fs * 10 ^ (-r.exp).toNat := by
+  obtain ⟨hd1, hd2, hd3, hd4⟩ := hdec
+  obtain ⟨hn1, hn2⟩ := hnon
+  unfold digitalValue
+  simp only [hfr, hes]
+  generalize ((if neg then [45] else []) ++ ints ++ (if hasFrac then dec' :: digitChars fs else [])).length = len at *
+  generalize leadLen ((if neg then [45] else []) ++ ints ++ (if hasFrac then dec' :: digitChars fs else [])) = lead at *
+  have hNb : natOfDigitsFrom 0 (charDigits ints) < 10 ^ 15 := by
+    have := natOfDigitsFrom_ge (natOfDigits (charDigits ints)) fs
+    simp only [natOfDigits] at this hb
+    omega
+  -- the state after the sign
+  have hsign : ∃ prev0, dvLoop 15 tab c.multiDec false dec' non' hs len lead
+      ((if neg then [45] else []) ++ ints ++ (if hasFrac then dec' :: digitChars fs else [])) 0 0 {} =
+      dvLoop 15 tab c.multiDec false dec' non' hs len lead
+        (ints ++ (if hasFrac then dec' :: digitChars fs else [])) (if neg then 1 else 0) prev0
+        ⟨⟨false, 0, 0⟩, Dec.ofNat 10, false, neg, []⟩ ∧ prev0 = (if neg then 45 else 0) := by
+    cases neg
+    · exact ⟨0, by simp; rfl, rfl⟩
+    · refine ⟨45, ?_, rfl⟩
+      simp only [if_true, List.cons_append, List.nil_append]
+      rw [dvLoop]
+      have hsk : skipNonDecimal c.multiDec 45 (len - 0) (0 - lead) hs 0 non' = false := by
+        unfold skipNonDecimal
+        have : (45 == non') = false := by simp; omega
+        simp [this]
+      have e1 : (45 == dec') = false := by simp; omega
+      have e2 : (45 == non') = false := by simp; omega
+      simp only [hsk, ht.low 45 (by decide), e1, e2, NBSP]
+      simp only [Bool.false_eq_true, if_false, Bool.or_self, Bool.and_false, Bool.not_false, BEq.rfl, if_true,
+        Nat.reduceBEq]
+      rfl
+  obtain ⟨prev0, hs1, hp0⟩ := hsign
+  rw [hs1]
+  subst hp0
+  obtain ⟨prev1, hs2⟩ := dvLoop_intpart 15 tab ht c.multiDec dec' non' hs len lead hn1 (by decide)
+    (if hasFrac then dec' :: digitChars fs else []) ints _ _ 0 neg [] hint hNb
+  rw [hs2]
+  cases hasFrac
+  · -- no fraction
+    have hfs0 := hnf rfl
+    subst hfs0
+    simp only [Bool.false_eq_true, if_false, dvLoop, bind, Except.bind]
+    obtain ⟨r, h1, h2, h3, h4⟩ := dvFinish_rep (sc := Dec.ofNat 10) (hd := false)
+      ⟨false, natOfDigitsFrom 0 (charDigits ints), 0⟩ neg _ 0 (Dec.rep_int _) hNb
+    exact ⟨r, h1, h2, h3, by simpa [natOfDigitsFrom, natOfDigits] using h4⟩
+  · -- decimal separator, then the fraction digits
+    simp only [if_true]
+    rw [dvLoop]
+    have hsk : ∀ a b q, skipNonDecimal c.multiDec dec' a b hs q non' = false := by
+      intro a b q
+      unfold skipNonDecimal
+      have : (dec' == non') = false := by simp; omega
+      simp [this]
+    have e32 : (dec' == 32) = false := by simp; omega
+    have enb : (dec' == NBSP) = false := by simp [NBSP]; omega
+    have e47 : (dec' == 47) = false := by
+      have := hfr
+      simp only [if_true, List.contains_eq_mem, List.mem_append, List.mem_cons, decide_eq_false_iff_not] at this
+      simp
+      intro h
+      exact this (Or.inr (Or.inl h.symm))
+    simp only [hsk, e32, enb, e47, ht.low dec' hd1, Bool.or_self, Bool.and_false, Bool.false_eq_true, if_false,
+      BEq.rfl, Bool.true_or, if_true]
+    have hsc : Dec.pointOne = Dec.scaleAt (0 + 1) := by simp [Dec.scaleAt]
+    rw [hsc]
+    obtain ⟨tmp', hl, hr⟩ := dvLoop_frac tab ht c.multiDec dec' non' hs len lead hn1 fs hfs _ dec'
+      (natOfDigitsFrom 0 (charDigits ints)) 0 ⟨false, natOfDigitsFrom 0 (charDigits ints), 0⟩ neg []
+      (Dec.rep_int _) (by simpa [natOfDigits] using hb)
+    rw [hl]
+    simp only [bind, Except.bind]
+    obtain ⟨r, h1, h2, h3, h4⟩ := dvFinish_rep (sc := Dec.scaleAt (0 + fs.length + 1)) (hd := true) tmp' neg _
+      (0 + fs.length) hr (by simpa [natOfDigits] using hb)
+    exact ⟨r, h1, h2, h3, by simpa [natOfDigits] using h4⟩
 
 /-- decidable readings of results (closed instances are proved by kernel evaluation) -/
 def isOkStr (r : Except Err Str) (s : Str) : Bool :=
